@@ -184,8 +184,10 @@ func build(ctx context.Context, w *world) (func(context.Context, int) (ident, er
 		if err != nil {
 			return nil, err
 		}
+		var graffiti [32]byte
+		copy(graffiti[:], c.Graffiti)
 		return func(ctx context.Context, k int) (ident, error) {
-			r, err := svc.Proposal(ctx, &api.ProposalOpts{Slot: phase0.Slot(c.slot(k)), RandaoReveal: phase0.BLSSignature{1}, Graffiti: [32]byte{'c', '0', '7'}})
+			r, err := svc.Proposal(ctx, &api.ProposalOpts{Slot: phase0.Slot(c.slot(k)), RandaoReveal: phase0.BLSSignature{1}, Graffiti: graffiti})
 			if err != nil {
 				return ident{}, err
 			}
